@@ -499,11 +499,22 @@ def writeRTP {W WC} (ci : Cipher W WC) (out : Option Ctx) (p : Pkt) : Option (Op
 reader gets `encr` iff ITS media has `srtpOutCtx != nil`, else `plain`. -/
 def streamWriteRTP {W WC} (ci : Cipher W WC) (stream : Option Ctx) (readers : List SessMedia) (p : Pkt) :
     Option (Option Ctx × List (Frame W)) :=
-  match writeRTP ci stream p with
+  -- the encryption (and with it the sender's roll-over counter) does NOT depend on who is listening:
+  -- fact `streamEncryptsEveryRTP`; a stream that encrypted only for an audience would be the `else` branch
+  let plain : Frame W := { ssrc := p.ssrc, seq := p.seq, body := .plain p.payload }
+  match (if Sec.streamEncryptsEveryRTP || readers.any (·.srtpOut.isSome) then writeRTP ci stream p else some (stream, plain)) with
   | none => none
   | some (stream', encr) =>
-    some (stream', readers.map fun r =>
-      if r.srtpOut.isSome then encr else { ssrc := p.ssrc, seq := p.seq, body := .plain p.payload })
+    some (stream', readers.map fun r => if r.srtpOut.isSome then encr else plain)
+
+/-- the life of a stream: packets written one after the other, each to whatever reader population
+is active at that moment; the result is the stream's outgoing context -/
+def streamRun {W WC} (ci : Cipher W WC) (stream : Option Ctx) : List (List SessMedia × Pkt) → Option (Option Ctx)
+  | [] => some stream
+  | (rs, p) :: rest =>
+    match streamWriteRTP ci stream rs p with
+    | none => none
+    | some (stream', _) => streamRun ci stream' rest
 
 inductive ReadRes where
   | decodeError
@@ -562,7 +573,8 @@ def writeRTCP {W WC} (ci : Cipher W WC) (out : Option Ctx) (ssrc : Nat) (payload
 stream's context, then each reader gets `encr` iff ITS media has `srtpOutCtx != nil`, else `plain`. -/
 def streamWriteRTCP {W WC} (ci : Cipher W WC) (stream : Option Ctx) (readers : List SessMedia) (ssrc : Nat) (payload : Bytes) :
     Option (Option Ctx × List (BodyC WC)) :=
-  match writeRTCP ci stream ssrc payload with
+  match (if Sec.streamEncryptsEveryRTCP || readers.any (·.srtpOut.isSome) then writeRTCP ci stream ssrc payload
+         else some (stream, .plain payload)) with
   | none => none
   | some (stream', encr) =>
     some (stream', readers.map fun r => if r.srtpOut.isSome then encr else .plain payload)
@@ -611,6 +623,30 @@ def turn (atomic : Bool) (s : Shared) (g : Nat) : Shared :=
 
 /-- a schedule: which goroutine runs at each turn -/
 def runSched (atomic : Bool) (sched : List Nat) : Shared := sched.foldl (turn atomic) {}
+
+/-! ## F. size limit of RTCP packets on a secure session -/
+
+inductive RtcpSite where
+  | stream | session | multicast | client
+deriving DecidableEq, Repr
+
+/-- the overhead each `writePacketRTCP` subtracts from `MaxPacketSize` when a context is present:
+`srtcpOverhead` (index word + tag), read from the code site by site -/
+def rtcpOverheadAt (site : RtcpSite) : Nat :=
+  let ok := match site with
+    | .stream => Sec.rtcpLimitStream
+    | .session => Sec.rtcpLimitSession
+    | .multicast => Sec.rtcpLimitMulticast
+    | .client => Sec.rtcpLimitClient
+  if ok then Sec.srtcpOverhead else Sec.srtpOverhead
+
+/-- `writePacketRTCP`'s size test: `none` = "packet is too big", else the size of the protected packet
+(pion: plain + 4-byte index + MKI + 10-byte tag).  Only the client's context can carry an MKI. -/
+def rtcpWireSize (site : RtcpSite) (maxPacketSize mkiLen plainLen : Nat) : Option Nat :=
+  let mki := if site = .client then mkiLen else 0
+  -- Go: `len(plain) > maxPlainPacketSize` on signed ints
+  if plainLen + (rtcpOverheadAt site + mki) > maxPacketSize then none
+  else some (plainLen + 4 + mki + 10)
 
 /-! ### the ideal cipher (an instance of the laws; used by the oracle executable) -/
 
